@@ -103,8 +103,11 @@ def run_C08(ctx):
         absorb(ctx, res, agg)
     else:
         sensitivity(ctx, finite_cfgs([2, 3], 1), 0)
-        r = tlc_replay(ctx, "ReplayFinite", finite_cfgs([2, 3, 4, 5], 4), max_now=0, max_bad=2, timeout=3000)
+        r = tlc_replay(ctx, "ReplayFinite", finite_cfgs([2, 3, 4, 5], 4), max_now=0, max_bad=1, timeout=3000)
         n, res = drive(ctx, "replay", r.stdout_path, "finite")
+        absorb(ctx, res, agg)
+        r = tlc_replay(ctx, "ReplayFiniteWide", finite_cfgs([6, 7, 8], 3), max_now=0, max_bad=1, put_topics=Raw('{{""}, {"t"}}'), timeout=3000)
+        n, res = drive(ctx, "replay", r.stdout_path, "finite-wide")
         absorb(ctx, res, agg)
         # beyond the exhaustive constants: random histories on larger rings
         r = tlc_replay(ctx, "ReplayFiniteSim", finite_cfgs([7, 16], 6), max_now=0, max_bad=3, simulate="num=150", depth=48)
